@@ -302,7 +302,10 @@ def ttest_cases(draw, large=False):
     runs = [{'set1': mk(a, 0), 'set2': mk(b, draw(st.sampled_from([0, 1])))} for a, b in sizes]
     if regime == 'exact' and draw(st.integers(0, 4)) == 0:
         runs[0]['set1'][:, 0] = runs[0]['set1'][0, 0]      # a constant column
-    frame = draw(st.sampled_from([None, None, 'slice', 'list']))
+    frame = draw(st.sampled_from([None, None, 'slice', 'list', 'range']))
+    if frame == 'range':
+        a = draw(st.integers(0, L - 1))
+        frame = range(a, draw(st.integers(a + 1, L)), draw(st.sampled_from([1, 2, 3])))
     if frame == 'slice':
         a = draw(st.integers(0, L - 1))
         frame = slice(a, draw(st.integers(a + 1, L)), draw(st.sampled_from([1, 2])))
